@@ -339,7 +339,9 @@ void c13_case(Tape& t, Ctx& ctx) {
   }
   ctx.label("bitwise-columns:" + std::to_string(bitwise_cols == D ? 1 : 0));
   // reductions over coordinates
-  VCHECK(ctx, fabsl((ld)ED - sumE) <= 1e-9L * sumE + 1e-280L, "energy-sum", who << ": energy " << g17(ED) << " is not the sum over coordinates " << lg(sumE));
+  ld Efloor13;
+  { std::vector<ld> dn; ld dt_; energy_nat(c, dn, dt_); Efloor13 = 1e-12L * dt_ * (ld)*std::min_element(c.T.begin(), c.T.end()); }   // see C14: rounding noise of an energy is of the natural size, not of its own value
+  VCHECK(ctx, fabsl((ld)ED - sumE) <= 1e-9L * sumE + Efloor13 + 1e-280L, "energy-sum", who << ": energy " << g17(ED) << " is not the sum over coordinates " << lg(sumE));
   for (int i = 0; i < N; ++i) {
     // the library returns incoming + propagated in double: subtracting the incoming gradient again leaves its rounding, eps*|incoming|
     VCHECK(ctx, fabsl((tmD(i) - (ld)gT(i)) - sum_times(i)) <= TAU_ADJ * D * sum_t_abs + tau_zero(S) * natT + 2 * (ld)DBL_EPSILON * fabsl((ld)gT(i)) + 1e-280L, "times-gradient-sum",
@@ -389,7 +391,7 @@ void c13_case(Tape& t, Ctx& ctx) {
     ld st = 0; for (int i = 0; i < N; ++i) st = std::max(st, fabsl(tmD(i)));
     for (int i = 0; i < N; ++i)
       VCHECK(ctx, fabsl(tpv(i) - tmD(i)) <= TAU_ADJ * D * std::max(st, sum_t_abs) + tau_zero(S) * natT + 1e-280L, "permutation", who << ": propagated duration gradient changes under a coordinate permutation (" << lg(tpv(i)) << " vs " << lg(tmD(i)) << ")");
-    VCHECK(ctx, fabsl((ld)spp.getEnergy() - (ld)ED) <= 1e-9L * fabsl((ld)ED) + 1e-280L, "permutation", who << ": energy changes under a coordinate permutation");
+    VCHECK(ctx, fabsl((ld)spp.getEnergy() - (ld)ED) <= 1e-9L * fabsl((ld)ED) + Efloor13 + 1e-280L, "permutation", who << ": energy changes under a coordinate permutation");
     ctx.label(all_bw ? "permutation:bitwise" : "permutation:within-tol");
   }
   // ---- the D-dimensional object's answers do not depend on the other spline objects that were built and queried in between
@@ -422,6 +424,10 @@ void c14_case(Tape& t, Ctx& ctx) {
   { std::vector<ld> dn; ld dt_; energy_nat(c, dn, dt_); for (int d = 0; d < D; ++d) natP[d] += dn[d]; natT += dt_; }  // energy at rounding level: data-based floor
   ld natPmax = 0; for (auto x : natP) natPmax = std::max(natPmax, x);
   ld Tmax = *std::max_element(c.T.begin(), c.T.end());
+  // an energy is a cancelling sum of terms of the natural size (data magnitude)^2 / T^(2s-1): two library energies of (nearly)
+  // straight-line data agree only to rounding noise of THAT size, not relative to their own (vanishing) value
+  ld Efloor;
+  { std::vector<ld> dn; ld dt_; energy_nat(c, dn, dt_); Efloor = 1e-12L * dt_ * (ld)*std::min_element(c.T.begin(), c.T.end()); }
   ctx.label(std::string("order:") + SplineOf<D, S>::name());
   std::string who = std::string(SplineOf<D, S>::name()) + " dim=" + std::to_string(D) + " N=" + std::to_string(N);
   int rel = t.range(0, 5);
@@ -492,7 +498,7 @@ void c14_case(Tape& t, Ctx& ctx) {
         // relative perturbation of the waypoint differences caused by rounding the translated waypoints
         ld spread = 0; for (int i = 0; i < N; ++i) for (int d = 0; d < D; ++d) spread = std::max(spread, fabsl((ld)cd.P(i + 1, d) - (ld)cd.P(i, d)));
         ld pert = (ld)DBL_EPSILON * (cd.M + wmax) / (spread > 0 ? spread : 1);
-        VCHECK(ctx, fabsl((ld)Ea - (ld)Eb) <= (1e-9L + 64 * N * pert) * std::max(fabsl((ld)Ea), fabsl((ld)Eb)) * (1 + (ld)nc) + 1e-280L || spread == 0, "translation-energy", who << ": translation changes the energy: " << g17(Ea) << " vs " << g17(Eb));
+        VCHECK(ctx, fabsl((ld)Ea - (ld)Eb) <= (1e-9L + 64 * N * pert) * std::max(fabsl((ld)Ea), fabsl((ld)Eb)) * (1 + (ld)nc) + Efloor * (1 + 64 * N * pert / 1e-9L) + 1e-280L || spread == 0, "translation-energy", who << ": translation changes the energy: " << g17(Ea) << " vs " << g17(Eb));
         ctx.label("translation:generic");
       }
       ctx.nontrivial = true;
@@ -526,7 +532,7 @@ void c14_case(Tape& t, Ctx& ctx) {
           for (int k = 0; k < nc; ++k)
             VCHECK(ctx, fabsl((ld)Cb(i * nc + k, d) - (ld)lam * (ld)C(i * nc + k, d)) * RefSpline::ipow(c.T[i], k) <= tau_fwd(S) * sc * fabsl((ld)lam), "scaling-coefficients", who << ": scaling the data by " << g17(lam) << " does not scale coefficient (" << i << "," << k << "," << d << ")");
         }
-        VCHECK(ctx, fabsl((ld)b.getEnergy() - (ld)lam * lam * E) <= 1e-9L * (ld)lam * lam * fabsl((ld)E) * (1 + nc) + 1e-280L, "scaling-energy", who << ": scaling the data by " << g17(lam) << " gives energy " << g17(b.getEnergy()) << " instead of " << lg((ld)lam * lam * E));
+        VCHECK(ctx, fabsl((ld)b.getEnergy() - (ld)lam * lam * E) <= 1e-9L * (ld)lam * lam * fabsl((ld)E) * (1 + nc) + (ld)lam * lam * Efloor + 1e-280L, "scaling-energy", who << ": scaling the data by " << g17(lam) << " gives energy " << g17(b.getEnergy()) << " instead of " << lg((ld)lam * lam * E));
         ctx.label("scaling:generic");
       }
       break;
@@ -573,7 +579,7 @@ void c14_case(Tape& t, Ctx& ctx) {
                    who << ": scaling the durations by " << g17(mu) << " does not reparametrise the curve at coefficient (" << i << "," << k << "," << d << ")");
         }
         ld expect = (ld)E * powl((ld)mu, -(2 * S - 1));
-        VCHECK(ctx, fabsl((ld)b.getEnergy() - expect) <= 1e-8L * fabsl(expect) * (1 + nc) + 1e-280L, "duration-scaling-energy", who << ": scaling the durations by " << g17(mu) << " gives energy " << g17(b.getEnergy()) << " instead of " << lg(expect));
+        VCHECK(ctx, fabsl((ld)b.getEnergy() - expect) <= 1e-8L * fabsl(expect) * (1 + nc) + Efloor * powl((ld)mu, -(2 * S - 1)) + 1e-280L, "duration-scaling-energy", who << ": scaling the durations by " << g17(mu) << " gives energy " << g17(b.getEnergy()) << " instead of " << lg(expect));
         ctx.label("duration-scaling:generic");
       }
       break;
@@ -596,7 +602,12 @@ void c14_case(Tape& t, Ctx& ctx) {
             auto vr = b.getTrajectory()[j].evaluate(u, m); auto vo = sp.getTrajectory()[i].evaluate(uo, m);
             double sgn = (m & 1) ? -1.0 : 1.0;
             for (int d = 0; d < D; ++d) {
-              ld sc = seg_abs_scale(C, i, nc, d, (ld)c.T[i], m) + std::max((ld)c.M, c.data_mag(d, S)) / RefSpline::ipow(c.T[i], m);
+              // scale of derivative m on this piece: its own terms, the data, and - because the solve is accurate relative to the
+              // LARGEST scaled coefficient of the piece (that is what C02 measures), not to each coefficient separately - the
+              // size an error of that relative accuracy in c_m..c_{2s-1} produces in derivative m
+              ld Sseg = 0; for (int k = 0; k < nc; ++k) Sseg = std::max(Sseg, fabsl((ld)C(i * nc + k, d)) * RefSpline::ipow(c.T[i], k));
+              ld fm = 1; for (int q = 0; q < m; ++q) fm *= (ld)(nc - 1 - q);
+              ld sc = seg_abs_scale(C, i, nc, d, (ld)c.T[i], m) + (std::max((ld)c.M, c.data_mag(d, S)) + fm * Sseg) / RefSpline::ipow(c.T[i], m);
               if (sc > 0) ctx.maxi("reversal_eval_" + std::string(SplineOf<D, S>::name()), (double)(fabsl((ld)vr(d) - sgn * (ld)vo(d)) / sc));
               VCHECK(ctx, fabsl((ld)vr(d) - sgn * (ld)vo(d)) <= tr * sc, "reversal-evaluation",
                      who << ": derivative " << m << " of the reversed spline on segment " << j << " at u=" << g17(u) << " coordinate " << d << " is " << g17(vr(d)) << " but (-1)^m times the original at the mirrored time is " << g17(sgn * vo(d)) << " (durations " << c.dur_shape << " ratio " << g6(c.ratio) << ")");
@@ -605,7 +616,7 @@ void c14_case(Tape& t, Ctx& ctx) {
         }
       }
       (void)Cb;
-      VCHECK(ctx, fabsl((ld)b.getEnergy() - (ld)E) <= 1e-8L * fabsl((ld)E) * (1 + nc) + 1e-280L, "reversal-energy", who << ": energy of the reversed problem " << g17(b.getEnergy()) << " differs from " << g17(E));
+      VCHECK(ctx, fabsl((ld)b.getEnergy() - (ld)E) <= 1e-8L * fabsl((ld)E) * (1 + nc) + Efloor + 1e-280L, "reversal-energy", who << ": energy of the reversed problem " << g17(b.getEnergy()) << " differs from " << g17(E));
       const MatL pts0 = pts, bnd0 = bnd; const VecL tms0 = tms;
       for (int via = 0; via < 2 && !ctx.failed; ++via) {
       // mirrored gradients, obtained (0) directly and (1) by propagating the energy's partial gradients through the spline
